@@ -4,6 +4,7 @@ go 1.25.0
 
 require (
 	github.com/anishathalye/porcupine v1.3.0
+	github.com/armon/go-metrics v0.4.1
 	github.com/hashicorp/go-msgpack/v2 v2.1.5
 	github.com/hashicorp/logutils v1.0.0
 	github.com/hashicorp/memberlist v0.5.4
@@ -16,7 +17,6 @@ require (
 	github.com/Masterminds/semver/v3 v3.2.0 // indirect
 	github.com/Masterminds/sprig/v3 v3.2.3 // indirect
 	github.com/armon/circbuf v0.0.0-20150827004946-bbbad097214e // indirect
-	github.com/armon/go-metrics v0.4.1 // indirect
 	github.com/armon/go-radix v1.0.0 // indirect
 	github.com/bgentry/speakeasy v0.1.0 // indirect
 	github.com/fatih/color v1.16.0 // indirect
